@@ -40,7 +40,8 @@ ASSUMPTIONS = [
     "ssl double: wrap_socket marks the connection TLS, the handshake succeeds iff the server port is a TLS port; no certificates",
     "the original request is a GET without body; request method / body preservation across 303 vs 307 is not part of the statement and not checked",
     "target comparison: path after percent-decoding, query as decoded argument list (parse_qsl); fragments are not sent and not compared",
-    "Host header: host part must equal the resolved URL's host (case-insensitive); the port part may be omitted when it is the scheme's default",
+    "Host header: host part must name the resolved URL's address (either name of the same address is accepted: ioflo's test-suite pins that the "
+    "previous name is kept when only the name changes); the port part may be omitted when it is the scheme's default",
     "for a https -> http Location any outcome is accepted (exception, error, no follow) except a request sent over a non-TLS connection",
     "statuses 301 302 303 307 (308 is unknown to ioflo's constants and outside the generated set)",
     "store stamp never advanced (no timers); the client is serviced for a fixed 6*(n+1)+8 rounds",
@@ -72,7 +73,7 @@ FORMS = [
     ("abs-other-host", "absolute", lambda s, h, p, j: "%s://%s:%d/x/y%d" % (s, _other_host(h), p, j)),
     ("abs-other-port", "absolute", lambda s, h, p, j: "%s://%s:%d/p%d?a=1&b=two" % (s, h, _other_port(s, p), j)),
     ("abs-default-port", "absolute", lambda s, h, p, j: "%s://%s/d%d" % (s, _other_host(h), j)),
-    ("abs-other-name", "absolute-same-address-other-name",
+    ("abs-other-name", "absolute",
      lambda s, h, p, j: None if _other_name(h) == h else "%s://%s:%d/v%d" % (s, _other_name(h), p, j)),
     ("abs-pct", "absolute", lambda s, h, p, j: "%s://%s:%d/a%%20b/c%d?q=x%%26y&r=1+2" % (s, h, p, j)),
     ("abs-fragment", "absolute", lambda s, h, p, j: "%s://%s:%d/f%d?z=9#frag" % (s, h, p, j)),
@@ -117,7 +118,7 @@ def h(sym, base, n, forms, sizes):
         name, cls, build = FORMS[fi]
         loc = build(scheme, host, port, j)
         sym.assume(loc is not None)
-        vary = sizes == "all" or (sizes == "first" and j == 0)
+        vary = sizes == "all" or (sizes == "first" and j == 0) or (sizes == "last" and j == n - 1)
         if vary:
             status, reason = STATUSES[sym.choice("status%d" % j, len(STATUSES))]
         else:
@@ -256,7 +257,9 @@ def _check_requests(sym, log, hops, urls):
         hname, sep, hport = hh.rpartition(":") if ":" in hh else (hh, "", "")
         default = 443 if scheme == "https" else 80
         okport = (hport == str(port)) or (not sep and port == default)
-        sym.check(hname.lower() == host.lower() and okport, "C34/wrong-host-header/" + cls, where + " Host: %r" % hh)
+        # ioflo's own redirect test pins that the previous host *name* is kept when the address is unchanged
+        # (Location http://localhost:6101 from 127.0.0.1:6101 -> "Host: 127.0.0.1:6101"): any name of the same address is accepted
+        sym.check(NAME2IP.get(hname.lower()) == NAME2IP[host] and okport, "C34/wrong-host-header/" + cls, where + " Host: %r" % hh)
 
 
 def obligations(tier):
@@ -279,12 +282,19 @@ def obligations(tier):
             name, cls, build = FORMS[fi]
             if build(*url_parts(BASES[base])[:3], 0) is None:
                 continue
-            if base == "http-name" and quick and cls != "absolute-same-address-other-name":
+            if base == "http-name" and quick and name not in ("abs-other-name", "abs-path", "upgrade"):
                 continue
-            add("chain1/%s/%s" % (base, name), base, 1, [fi], "all", [])
+            if cls == "absolute":
+                covers = ["followed", "split-redirect-response"]
+            elif cls == "scheme-downgrade":
+                covers = ["downgrade-refused"]
+            else:
+                covers = []      # on the unchanged tree every path of these shards ends in a recorded defect class
+            add("chain1/%s/%s" % (base, name), base, 1, [fi], "all", covers)
     for base in ("http", "https"):
-        add("chain2/%s" % base, base, 2, allf, "none", [])
+        add("chain2/%s" % base, base, 2, allf, "none", ["followed"])
         if not quick:
-            add("chain3/%s" % base, base, 3, allf, "none", [])
-            add("chain2-sizes/%s" % base, base, 2, [0, 1, 2, 5], "all", [])
+            add("chain3/%s" % base, base, 3, allf, "none", ["followed"])
+            add("chain2-first/%s" % base, base, 2, [0, 1, 2, 5, 7, 9], "first", ["followed", "split-redirect-response"])
+            add("chain2-last/%s" % base, base, 2, [0, 1, 2, 5, 7, 9], "last", ["followed", "split-redirect-response"])
     return out
